@@ -3,10 +3,12 @@
   client._read_side_band64k_data, pack.PackStreamReader._read).  Core Lean only.
 
   Every constant comes from Gen/PktLine.lean (regenerated from /repo on each run).  The model
-  describes the code that exists, including: `pkt_line` formats any length (5 hex digits from
-  65532 payload bytes on); `ReceivableProtocol.read(0)` trips `assert size > 0` (so the empty
-  pkt-line `0004` is not readable through it); `PktLineParser` rejects the delim-pkt `0001`
-  that `read_pkt_line` accepts; `BufferedPktLineWriter.flush` resets `_len`, not `_buflen`.
+  describes the code that exists, including: `pkt_line` raises ValueError above
+  `MAX_PKT_LINE_DATA_LEN`; `read_pkt_line` does not touch the transport for the empty pkt-line
+  `0004` (`ReceivableProtocol.read(0)` would trip `assert size > 0`); `PktLineParser` rejects the
+  delim-pkt `0001` that `read_pkt_line` accepts; `BufferedPktLineWriter.flush` resets `_len`, not
+  `_buflen`.  The behaviour before the C19 fix series is kept in `namespace Old` for the
+  regression witnesses in Props/C19.lean.
 -/
 import DulwichModel.Model.Basic
 import DulwichModel.Gen.PktLine
@@ -39,16 +41,26 @@ def fmtHex (w n : Nat) : Bytes :=
   let s := hexStr n
   List.replicate (w - s.length) (48 : UInt8) ++ s
 
-/-- `pkt_line(data)` -/
-def pktLine : Pkt → Bytes
+/-- The bytes of one frame: the flush-pkt literal, or `f"{len(data) + 4:04x}" + data` — the
+formatting step of `pkt_line`, without its size check (also what `unread_pkt_line` writes with
+`b"%04x"`). -/
+def frame : Pkt → Bytes
   | none => Gen.PktLine.flushPkt.map UInt8.ofNat
   | some d => fmtHex Gen.PktLine.fmtWidth (d.length + Gen.PktLine.fmtHdr) ++ d
 
-/-- the byte stream of a payload sequence (`b"".join(pkt_line(p) for p in ps)`) -/
-def encode (ps : List Pkt) : Bytes := (ps.map pktLine).flatten
+/-- `pkt_line(data)`; `none` = ValueError (payload longer than `MAX_PKT_LINE_DATA_LEN`) -/
+def pktLine : Pkt → Option Bytes
+  | none => some (frame none)
+  | some d => if d.length > Gen.PktLine.maxDataLen then none else some (frame (some d))
 
-/-- `pkt_seq(*seq)` -/
-def pktSeq (ps : List Pkt) : Bytes := encode ps ++ pktLine none
+/-- the byte stream of a sequence of frames -/
+def encode (ps : List Pkt) : Bytes := (ps.map frame).flatten
+
+/-- `b"".join(pkt_line(p) for p in ps)`; `none` = ValueError -/
+def wire (ps : List Pkt) : Option Bytes := (ps.mapM pktLine).map List.flatten
+
+/-- `pkt_seq(*seq)`; `none` = ValueError -/
+def pktSeq (ps : List Pkt) : Option Bytes := (wire ps).map (· ++ frame none)
 
 /-! ## `_parse_pkt_line_length` -/
 
@@ -110,7 +122,10 @@ def readCore {τ : Type} (rd : Reader τ) (s : τ) : Rd τ :=
       | .ok size =>
         if size = Gen.PktLine.rdFlush ∨ size = Gen.PktLine.rdDelim then .pkt none s1
         else if size < Gen.PktLine.rdMin then .protoErr
-        else match rd (size - Gen.PktLine.rdHdr) s1 with
+        else
+          -- `read(size - 4) if size > 4 else b""`
+          let r := if size > Gen.PktLine.rdEmpty then rd (size - Gen.PktLine.rdHdr) s1 else some ([], s1)
+          match r with
           | none => .otherErr
           | some (body, s2) =>
             if body.length + Gen.PktLine.rdChk ≠ size then .protoErr else .pkt (some body) s2
@@ -138,11 +153,17 @@ def readPktLine {τ : Type} (rd : Reader τ) (ps : PState τ) : Rd (PState τ) :
     | .protoErr => .protoErr
     | .otherErr => .otherErr
 
-/-- `Protocol.unread_pkt_line`; `none` = ValueError (slot occupied) -/
+/-- `Protocol.unread_pkt_line`; `none` = ValueError (slot occupied, or a line too long for the
+four-digit length field) -/
 def unreadPktLine {τ : Type} (p : Pkt) (ps : PState τ) : Option (PState τ) :=
   match ps.ra with
   | some _ => none
-  | none => some ⟨some (pktLine p), ps.st⟩
+  | none =>
+    match p with
+    | none => (pktLine none).map fun f => ⟨some f, ps.st⟩
+    | some d =>
+      if d.length + Gen.PktLine.unHdr > Gen.PktLine.unMax then none
+      else some ⟨some (fmtHex Gen.PktLine.unWidth (d.length + Gen.PktLine.unHdr) ++ d), ps.st⟩
 
 /-- Result of `Protocol.eof()` -/
 inductive EofResult (τ : Type) where
@@ -283,9 +304,10 @@ def sbChunks : Nat → Bytes → List Bytes
     if blob = [] then []
     else blob.take Gen.PktLine.sbChunk :: sbChunks f (blob.drop Gen.PktLine.sbChunk)
 
-/-- frames written by `write_sideband(channel, blob)` -/
-def writeSideband (chan : UInt8) (blob : Bytes) : List Bytes :=
-  (sbChunks blob.length blob).map (fun c => pktLine (some (chan :: c)))
+/-- frames written by `write_sideband(channel, blob)`; `none` = ValueError from `pkt_line`
+(never, as long as the slice size leaves room for the channel byte: `sideband_split_ok`) -/
+def writeSideband (chan : UInt8) (blob : Bytes) : Option (List Bytes) :=
+  (sbChunks blob.length blob).mapM (fun c => pktLine (some (chan :: c)))
 
 /-- `_read_side_band64k_data`; `none` = TypeError from `ord(b"")` on an empty packet -/
 def sidebandDemux : List Bytes → Option (List (UInt8 × Bytes))
@@ -313,9 +335,9 @@ def bwFlush (st : BW) : List Bytes × BW :=
   (if st.wbuf = [] then [] else [st.wbuf],
    ⟨[], if Gen.PktLine.bwFlushResetsBuflen then 0 else st.buflen⟩)
 
-/-- `write(data)` -/
+/-- `write(data)` for data that `pkt_line` accepts (`bwRun` checks) -/
 def bwWrite (bufsize : Nat) (st : BW) (data : Bytes) : List Bytes × BW :=
-  let line := pktLine (some data)
+  let line := frame (some data)
   let over : Int := (st.buflen : Int) + line.length - bufsize
   if over ≥ 0 then
     let start : Int := line.length - over
@@ -325,19 +347,26 @@ def bwWrite (bufsize : Nat) (st : BW) (data : Bytes) : List Bytes × BW :=
   else
     ([], ⟨st.wbuf ++ line, st.buflen + line.length⟩)
 
-/-- a sequence of `write` calls followed by a final `flush`: everything the underlying writer got -/
-def bwRun (bufsize : Nat) : BW → List Bytes → List Bytes
-  | st, [] => (bwFlush st).1
-  | st, d :: ds => let (o, st') := bwWrite bufsize st d; o ++ bwRun bufsize st' ds
+/-- a sequence of `write` calls followed by a final `flush`: everything the underlying writer got;
+`none` = ValueError (`pkt_line` refused one of the writes) -/
+def bwRun (bufsize : Nat) : BW → List Bytes → Option (List Bytes)
+  | st, [] => some (bwFlush st).1
+  | st, d :: ds =>
+    match pktLine (some d) with
+    | none => none
+    | some _ => let (o, st') := bwWrite bufsize st d; (bwRun bufsize st' ds).map (o ++ ·)
 
 /-! ## capability lists and ref lines -/
 
 /-- `bytes.isspace` alphabet: what `strip()`/`rstrip()` without argument remove -/
 def isWs (b : UInt8) : Bool := b = 9 || b = 10 || b = 11 || b = 12 || b = 13 || b = 32
 
-def lstrip (s : Bytes) : Bytes := s.dropWhile isWs
-def rstrip (s : Bytes) : Bytes := (s.reverse.dropWhile isWs).reverse
-def strip (s : Bytes) : Bytes := lstrip (rstrip s)
+/-- the bytes `strip(b" \n")` removes: the list separator and the line terminator -/
+def isSepLf (b : UInt8) : Bool := b = 32 || b = 10
+
+def lstripBy (p : UInt8 → Bool) (s : Bytes) : Bytes := s.dropWhile p
+def rstripBy (p : UInt8 → Bool) (s : Bytes) : Bytes := (s.reverse.dropWhile p).reverse
+def stripBy (p : UInt8 → Bool) (s : Bytes) : Bytes := lstripBy p (rstripBy p s)
 
 /-- `bytes.split(sep)` for a one-byte separator (always at least one field) -/
 def splitOn (sep : UInt8) : Bytes → List Bytes
@@ -365,13 +394,15 @@ def formatRefLine (ref sha : Bytes) : Option (List Bytes) → Bytes
 /-- `extract_capabilities(text)`; `none` = ValueError (more than one NUL: unpacking fails) -/
 def extractCapabilities (text : Bytes) : Option (Bytes × List Bytes) :=
   if ¬ text.contains 0 then some (text, [])
-  else match splitOn 0 (rstrip text) with
-    | [t, c] => some (t, splitOn 32 (strip c))
+  else match splitOn 0 text with
+    | [t, c] =>
+      let c' := stripBy isSepLf c
+      if c' = [] then some (t, []) else some (t, splitOn 32 c')
     | _ => none
 
 /-- `extract_want_line_capabilities(text)` -/
 def extractWantLineCapabilities (text : Bytes) : Bytes × List Bytes :=
-  let parts := splitOn 32 (rstrip text)
+  let parts := splitOn 32 (rstripBy isSepLf text)
   if parts.length < Gen.PktLine.wantMin then (text, [])
   else (joinWith 32 (parts.take Gen.PktLine.wantHead), parts.drop Gen.PktLine.wantHead)
 
@@ -396,5 +427,43 @@ def trailerStep (h : Nat) (st : Trailer) (data : Bytes) : Trailer :=
   ⟨st.hashed ++ st.trailer.take toPop ++ upd, st.trailer.drop toPop ++ keep⟩
 
 def trailerRun (h : Nat) (st : Trailer) (chunks : List Bytes) : Trailer := chunks.foldl (trailerStep h) st
+
+/-! ## The code before the C19 fix series (regression witnesses only) -/
+namespace Old
+
+/-- old `pkt_line`: total, five hex digits from 65532 payload bytes on -/
+def pktLine : Pkt → Bytes := frame
+
+/-- old `read_pkt_line` body: always calls `read(size - 4)`, also for `size = 4` -/
+def readCore {τ : Type} (rd : Reader τ) (s : τ) : Rd τ :=
+  match rd Gen.PktLine.rdPrefix s with
+  | none => .otherErr
+  | some (sizestr, s1) =>
+    if sizestr = [] then .hangup s1
+    else match parseLen sizestr with
+      | .protocol => .protoErr
+      | .other => .otherErr
+      | .ok size =>
+        if size = Gen.PktLine.rdFlush ∨ size = Gen.PktLine.rdDelim then .pkt none s1
+        else if size < Gen.PktLine.rdMin then .protoErr
+        else match rd (size - Gen.PktLine.rdHdr) s1 with
+          | none => .otherErr
+          | some (body, s2) =>
+            if body.length + Gen.PktLine.rdChk ≠ size then .protoErr else .pkt (some body) s2
+
+/-- old `extract_capabilities`: `rstrip()` / `strip()` over all ASCII whitespace, no empty-list case -/
+def extractCapabilities (text : Bytes) : Option (Bytes × List Bytes) :=
+  if ¬ text.contains 0 then some (text, [])
+  else match splitOn 0 (rstripBy isWs text) with
+    | [t, c] => some (t, splitOn 32 (stripBy isWs c))
+    | _ => none
+
+/-- old `extract_want_line_capabilities` -/
+def extractWantLineCapabilities (text : Bytes) : Bytes × List Bytes :=
+  let parts := splitOn 32 (rstripBy isWs text)
+  if parts.length < Gen.PktLine.wantMin then (text, [])
+  else (joinWith 32 (parts.take Gen.PktLine.wantHead), parts.drop Gen.PktLine.wantHead)
+
+end Old
 
 end Dulwich.PktLine
